@@ -310,6 +310,31 @@ def settings_readback(chk, gwbin, label="xattr", cfg=None):
             chk.case(("create-invalid", n), True); chk.traces += 1
             if r.status == 200 or os.path.exists(os.path.join(site.root, n)):
                 chk.fail("c16:invalid-name-created", "CreateBucket %r answered %d %s; directory exists: %s" % (n, r.status, r.code, os.path.exists(os.path.join(site.root, n))), {"name": n})
+        # objects whose keys look like the names the metadata store uses for the bucket's own settings: the settings of the bucket
+        # and those objects do not get in each other's way
+        mb = "set-meta"
+        chk.require(U1.req("PUT", "/" + mb).status == 200, "c16:setup", "CreateBucket set-meta failed")
+        okeys = ["meta/policy", "meta/X-Amz-Tagging", "meta/acl", "policy", "meta/meta/policy"]
+        stored_ = {}
+        for k_ in okeys:
+            ro = R.req("PUT", "/%s/%s" % (mb, k_), body=("object " + k_).encode())
+            if ro.status == 200: stored_[k_] = ("object " + k_).encode()
+        pol = POLDOCS(mb)[0]
+        tagb = b"<Tagging><TagSet><Tag><Key>k</Key><Value>v</Value></Tag></TagSet></Tagging>"
+        rp_ = R.req("PUT", "/" + mb, query={"policy": ""}, body=json.dumps(pol).encode()); gp_ = R.req("GET", "/" + mb, query={"policy": ""})
+        rt_ = R.req("PUT", "/" + mb, query={"tagging": ""}, body=tagb); gt_ = canon_tags(R.req("GET", "/" + mb, query={"tagging": ""}))
+        ga_ = R.req("GET", "/" + mb, query={"acl": ""})
+        objs_ = {k_: (lambda r: r.body if r.status == 200 else r.status)(R.req("GET", "/%s/%s" % (mb, k_))) for k_ in stored_}
+        row = {"config": label, "objects_acknowledged": sorted(stored_), "PutBucketPolicy": (rp_.status, rp_.code), "GetBucketPolicy": gp_.status, "PutBucketTagging": (rt_.status, rt_.code),
+               "tags_read": gt_, "GetBucketAcl": ga_.status, "objects_read": {k_: (v_ if isinstance(v_, int) else v_.decode()) for k_, v_ in objs_.items()}}
+        chk.case(("setting-vs-object-key", label), True); chk.traces += 1; chk.count("setting-vs-object-key:%s:%d/%d" % (label, rp_.status, rt_.status))
+        bad = []
+        if rp_.status not in (200, 204) or gp_.status != 200 or json.loads(gp_.body) != pol: bad.append("PutBucketPolicy %d %s, GetBucketPolicy %d" % (rp_.status, rp_.code, gp_.status))
+        if rt_.status not in (200, 204) or gt_ != {"k": "v"}: bad.append("PutBucketTagging %d %s, tags read %r" % (rt_.status, rt_.code, gt_))
+        if ga_.status != 200: bad.append("GetBucketAcl %d" % ga_.status)
+        bad += ["object %s reads %r" % (k_, v_) for k_, v_ in objs_.items() if v_ != stored_[k_]]
+        if bad:
+            chk.fail("c16:setting-vs-object-key:%s" % label, "[%s] in a bucket holding the acknowledged objects %s: %s" % (label, sorted(stored_), "; ".join(bad)), row)
         chk.tie("gateway still running after the settings sweep", g.alive(), g.log_tail())
 
 
